@@ -38,7 +38,9 @@ def run_one(pid, m, slot):
                            capture_output=True, text=True, env=env)
         fired = sorted({l.split()[1].split(".", 1)[1] for l in r.stdout.splitlines() if l.startswith("FAIL ")})
         exp = m.get("expect") or []
-        if r.returncode == 2:
+        if m.get("equivalent"):
+            res = "killed" if r.returncode == 0 else "false-alarm"
+        elif r.returncode == 2:
             res = "broken"
         elif r.returncode == 0:
             res = "survived"
